@@ -216,8 +216,7 @@ class EstimationStep(ExecutionStep):
                 f"Predictions could not be converted to tuple. Recieved type '{type(predictions)}'"
             )
 
-        if derivatives:
-            derivatives = EstimationStep._canonicalize_derivatives(derivatives)
+        derivatives = EstimationStep._canonicalize_derivatives(derivatives)
 
         if parameter_uncertainty_method is not None:
             parameter_uncertainty_method = parameter_uncertainty_method.upper()
@@ -440,7 +439,9 @@ class EstimationStep(ExecutionStep):
             'niter': self._niter,
             'auto': self._auto,
             'keep_every_nth_iter': self._keep_every_nth_iter,
-            'derivatives': tuple(str(d) for d in self._derivatives),
+            'derivatives': tuple(
+                tuple(symb.serialize() for symb in d) for d in self._derivatives
+            ),
             'predictions': self._predictions,
             'residuals': self._residuals,
             'individual_eta_samples': self._individual_eta_samples,
@@ -455,6 +456,9 @@ class EstimationStep(ExecutionStep):
         # NOTE: A dict that went through JSON has lists instead of tuples
         d['predictions'] = tuple(d['predictions'])
         d['residuals'] = tuple(d['residuals'])
+        d['derivatives'] = tuple(
+            tuple(Expr.deserialize(symb) for symb in der) for der in d['derivatives']
+        )
         return cls(**d)
 
     def __repr__(self):
